@@ -637,3 +637,240 @@ func legNegatives(thorough bool) {
 		}
 	})
 }
+
+// ---- QUIC: Initials coalesced with packets of other types ------------------------------------------------------------
+//
+// legQUIC only ever builds datagrams that END with an Initial packet. Here every datagram may carry, behind its Initial
+// packet(s), one packet of another kind {0-RTT, Handshake, short header, stray zero bytes}: every assignment of
+// {none, 4 kinds} to the datagrams of the sequence; and, once per datagram, the same 4 kinds between two coalesced
+// Initials and in front of the first Initial. The CRYPTO stream is cut into <= 3 frames, every order, spread over 1
+// packet / 2 coalesced packets / 2 datagrams / 3 datagrams / coalesced+datagram. Whether recognition is demanded is the
+// reference's decision (refQuicSequence: an opaque packet BEHIND an Initial does not excuse anything; a datagram that
+// does not start with a decodable Initial does).
+
+type coalLayout struct {
+	name   string
+	groups [][]int
+	dgram  []int
+}
+
+func coalLayouts(k int) []coalLayout {
+	switch k {
+	case 1:
+		return []coalLayout{
+			{"1pkt", [][]int{{0}}, []int{0}},
+			{"coalesced1+0", [][]int{{0}, {}}, []int{0, 0}},
+			{"coalesced0+1", [][]int{{}, {0}}, []int{0, 0}},
+			{"2dgrams1+0", [][]int{{0}, {}}, []int{0, 1}},
+			{"2dgrams0+1", [][]int{{}, {0}}, []int{0, 1}},
+		}
+	case 2:
+		return []coalLayout{
+			{"1pkt", [][]int{{0, 1}}, []int{0}},
+			{"coalesced1+1", [][]int{{0}, {1}}, []int{0, 0}},
+			{"2dgrams1+1", [][]int{{0}, {1}}, []int{0, 1}},
+		}
+	}
+	return []coalLayout{
+		{"1pkt", [][]int{{0, 1, 2}}, []int{0}},
+		{"coalesced1+2", [][]int{{0}, {1, 2}}, []int{0, 0}},
+		{"coalesced2+1", [][]int{{0, 1}, {2}}, []int{0, 0}},
+		{"2dgrams1+2", [][]int{{0}, {1, 2}}, []int{0, 1}},
+		{"2dgrams2+1", [][]int{{0, 1}, {2}}, []int{0, 1}},
+		{"3dgrams1+1+1", [][]int{{0}, {1}, {2}}, []int{0, 1, 2}},
+		{"coalesced1+1,dgram1", [][]int{{0}, {1}, {2}}, []int{0, 0, 1}},
+		{"dgram1,coalesced1+1", [][]int{{0}, {1}, {2}}, []int{0, 1, 1}},
+	}
+}
+
+// coalTrailers: where the other packets go. after[d]: behind the Initials of datagram d; mid/front = {datagram, kind}.
+type coalTrailers struct {
+	after      []int
+	mid, front [2]int
+}
+
+func (t coalTrailers) String() string {
+	s := "after=["
+	for i, a := range t.after {
+		if i > 0 {
+			s += ","
+		}
+		s += trailerName[a]
+	}
+	s += "]"
+	if t.mid[1] != trNone {
+		s += fmt.Sprintf(" between-initials-of-datagram%d=%s", t.mid[0], trailerName[t.mid[1]])
+	}
+	if t.front[1] != trNone {
+		s += fmt.Sprintf(" in-front-of-datagram%d=%s", t.front[0], trailerName[t.front[1]])
+	}
+	return s
+}
+
+func coalTrailerChoices(lay coalLayout) []coalTrailers {
+	nd := lay.dgram[len(lay.dgram)-1] + 1
+	cnt := make([]int, nd)
+	for _, d := range lay.dgram {
+		cnt[d]++
+	}
+	var out []coalTrailers
+	var rec func(cur []int)
+	rec = func(cur []int) {
+		if len(cur) == nd {
+			out = append(out, coalTrailers{after: append([]int(nil), cur...)})
+			return
+		}
+		for k := 0; k < nTrailerKinds; k++ {
+			rec(append(cur, k))
+		}
+	}
+	rec(nil)
+	none := make([]int, nd)
+	for d := 0; d < nd; d++ {
+		for k := 1; k < nTrailerKinds; k++ {
+			if cnt[d] >= 2 && (k == trZeroRTT || k == trHandshake) { // only a packet with a Length can be followed by another
+				out = append(out, coalTrailers{after: none, mid: [2]int{d, k}})
+			}
+			out = append(out, coalTrailers{after: none, front: [2]int{d, k}})
+		}
+	}
+	return out
+}
+
+func buildCoalSequence(v qver, hi int, segs []cseg, order []int, pattern int, lay coalLayout, tr coalTrailers) [][]byte {
+	var scid []byte
+	if hi == 1 {
+		scid = []byte{0xc1, 0xc2, 0xc3, 0xc4, 0xc5}
+	}
+	nd := lay.dgram[len(lay.dgram)-1] + 1
+	dgrams := make([][]byte, nd)
+	seenIn := make([]int, nd)
+	for d := 0; d < nd; d++ {
+		if tr.front[1] != trNone && tr.front[0] == d {
+			dgrams[d] = append(dgrams[d], otherPacket(v, tr.front[1], quicDcid, scid)...)
+		}
+	}
+	for pi, g := range lay.groups {
+		var frames [][]byte
+		for _, pos := range g {
+			s := segs[order[pos]]
+			frames = append(frames, frCrypto(s.off, s.data))
+		}
+		spec := pktSpec{v: v, dcid: quicDcid, scid: scid, pn: uint32(pi), pnLen: 1 + (pattern+pi)%4, payload: padFrames(pattern, frames)}
+		if pattern == 3 {
+			spec.token = []byte{0x74, 0x6f, 0x6b}
+		}
+		d := lay.dgram[pi]
+		dgrams[d] = append(dgrams[d], encodeInitial(spec)...)
+		seenIn[d]++
+		if seenIn[d] == 1 && tr.mid[1] != trNone && tr.mid[0] == d {
+			dgrams[d] = append(dgrams[d], otherPacket(v, tr.mid[1], quicDcid, scid)...)
+		}
+	}
+	for d := 0; d < nd; d++ {
+		dgrams[d] = append(dgrams[d], otherPacket(v, tr.after[d], quicDcid, scid)...)
+	}
+	return dgrams
+}
+
+func legQUICCoalesce(thorough bool) {
+	cases := R.Counter("quic_coalesce_cases")
+	demanded := R.Counter("quic_coalesce_recognition_demanded")
+	perms := [][][]int{nil, permutations(1), permutations(2), permutations(3)}
+	patterns := []int{0, 3}
+	if thorough {
+		patterns = []int{0, 1, 2, 3, 4}
+	}
+	type job struct {
+		v    qver
+		hi   int
+		cuts []int
+	}
+	var jobs []job
+	hs := make([][]byte, len(quicHellos))
+	for hi, h := range quicHellos {
+		bh := buildHello(h)
+		hs[hi] = bh.hs
+		name := 0 // offset of the first byte of the host name
+		for _, f := range bh.fields {
+			if f.name == "sniname" {
+				name = f.off + f.size
+			}
+		}
+		var cutSets [][]int
+		if thorough {
+			pts := map[int]bool{1: true, 4: true, len(bh.hs) - 1: true}
+			for _, f := range bh.fields {
+				if f.name == "sid" || f.name == "exts" || f.name == "snilist" || f.name == "sniname" {
+					pts[f.off], pts[f.off+f.size] = true, true
+				}
+			}
+			var ps []int
+			for c := range pts {
+				if c > 0 && c < len(bh.hs) {
+					ps = append(ps, c)
+				}
+			}
+			sort.Ints(ps)
+			cutSets = append(cutSets, nil)
+			for a := range ps {
+				cutSets = append(cutSets, []int{ps[a]})
+				for b := a + 1; b < len(ps); b++ {
+					cutSets = append(cutSets, []int{ps[a], ps[b]})
+				}
+			}
+		} else {
+			cutSets = [][]int{nil, {1}, {name + 3}, {len(bh.hs) - 1}, {4, name + 3}}
+		}
+		for _, v := range []qver{quicV1, quicV2} {
+			for _, cs := range cutSets {
+				jobs = append(jobs, job{v, hi, cs})
+			}
+		}
+	}
+	R.Set("quic_coalesce_splits", len(jobs))
+	{
+		seg := []cseg{{0, hs[0][:40]}, {40, hs[0][40:]}}
+		d := buildCoalSequence(quicV1, 0, seg, []int{0, 1}, 0, coalLayouts(2)[2], coalTrailers{after: []int{trZeroRTT, trNone}})
+		R.Sample(map[string]any{"leg": "quic-coalesce", "what": "v1, hello0 cut at 40, datagram 0 = Initial + 0-RTT packet, datagram 1 = Initial", "datagrams": hxs(d), "reference_name": refQuicSequence(d).name})
+	}
+	R.ParallelFor(len(jobs), func(ji int) {
+		j := jobs[ji]
+		h := hs[j.hi]
+		var segs []cseg
+		prev := 0
+		for _, c := range append(append([]int(nil), j.cuts...), len(h)) {
+			segs = append(segs, cseg{prev, h[prev:c]})
+			prev = c
+		}
+		k := len(segs)
+		for oi, order := range perms[k] {
+			for _, pattern := range patterns {
+				for li, lay := range coalLayouts(k) {
+					for ti, tr := range coalTrailerChoices(lay) {
+						dgrams := buildCoalSequence(j.v, j.hi, segs, order, pattern, lay, tr)
+						v := refQuicSequence(dgrams)
+						desc := fmt.Sprintf("%s hello%d cuts=%v order=%v pattern=%d layout=%s other-packets: %s", j.v.name, j.hi, j.cuts, order, pattern, lay.name, tr.String())
+						if v.required != (tr.front[1] == trNone) {
+							report("quic-coalesce", "harness", desc, fmt.Sprintf("reference says required=%v for the harness's own sequence: %s", v.required, desc), hxs(dgrams))
+							continue
+						}
+						if v.required {
+							demanded.Add(1)
+						}
+						cases.Add(1)
+						distinct(fnv(dgrams...))
+						leg := "quic-coalesce " + j.v.name
+						if tr.mid[1] != trNone {
+							leg = "quic-coalesce-between"
+						}
+						runUDP(leg, fmt.Sprintf("%d|%d|%v|%d|%d|%02d|%03d", len(j.cuts), j.hi, j.cuts, oi, pattern, li, ti), desc, dgrams, &v, true)
+						if len(dgrams) == 1 && oi == 0 {
+							runUDPSingle(leg, fmt.Sprintf("%d|%v|%d|%d|%d", j.hi, j.cuts, pattern, li, ti), desc, dgrams[0], &v)
+						}
+					}
+				}
+			}
+		}
+	})
+}
